@@ -31,6 +31,8 @@ ASSUMPTIONS = [
     "capacities above 65536 are not exercised with values",
 ]
 BUDGET = {"quick": 1200, "thorough": 25000}
+# coverage-guided twins (thorough tier): part name -> executions per shard; see core.cover
+COVER = {"roundtrip": 4000}
 
 
 def relax(spec: typing.Any, v: typing.Any, py: typing.Any, counters: typing.Dict[str, int]) -> typing.Any:
